@@ -254,7 +254,9 @@ type c10tGen struct {
 var c10tTokens = []string{"T", "tok-1", "eyJhbGciOiJSUzI1NiJ9.eyJzdWIiOiIifQ.c2ln", "a b", " lead", "é", "日本", "\U0001F600", "q\"b\\c/d", "\x7f", "x y", "ſK", "0", "null", "token"}
 var c10tBadBytes = []string{"\xff", "a\xc3", "\xed\xa0\x80", "\xc0\x80z", "\xf4\x90\x80\x80", "\xe2\x82"}
 
-// c10tExpiry: the values on which the lifetime rule, the int range and int64-nanosecond arithmetic turn.
+// c10tExpiry: the values on which the lifetime rule, the int range and int64-nanosecond arithmetic turn
+// (F41: ±9223372036 is where the code saturates; the multiples of 2^64 ns around ±18446744073 are where the
+// product it used to compute came back into range).
 var c10tExpiry = []string{"0", "-0", "1", "2", "3", "59", "60", "61", "300", "3600", "86400", "-1", "-2", "-5", "-60", "-3600",
 	"9223372036", "9223372037", "-9223372036", "-9223372037", "18446744073", "18446744074", "-18446744073", "-18446744074", "27670116110", "-27670116111",
 	"2147483647", "2147483648", "-2147483648", "-2147483649", "4294967296", "9223372036854775807", "-9223372036854775808", "9223372036854775806", "4611686018427387904", "-4611686018427387904",
@@ -492,27 +494,23 @@ func (*c10t) Oracle(c Case, impl []string) []Failure {
 		}
 		// freshness, as the SERVER stated it: expiry = acquisition + expires_in seconds (60 when 0). The second call
 		// starts at least elapsedMs after the acquisition.
+		// F41: expires_in of EVERY magnitude is judged by the same two clauses - values whose nanoseconds leave int64
+		// used to get classes of their own (":int64-overflow", known findings F41 / F41b); the stated lifetime is
+		// computed in saturating milliseconds here so that the oracle itself cannot wrap.
 		life := int64(w.ExpiresIn)
 		if life == 0 {
 			life = 60
 		}
-		overflow := life > math.MaxInt64/1000000000 || life < math.MinInt64/1000000000 // time.Duration(n)*time.Second leaves int64
-		suffix := ""
-		if overflow {
-			suffix = ":int64-overflow"
-		}
-		expired := life*1000 < int64(elapsedMs)
-		if overflow {
-			expired = life < 0
-		}
+		lifeMs := c10tSatMul1000(life)
+		expired := lifeMs < int64(elapsedMs)
 		if expired && strings.HasPrefix(second, "reuse:") {
-			fail("c10t-expired-token-reused"+suffix, "token_past_its_stated_lifetime_is_not_presented_later", "ask:…",
+			fail("c10t-expired-token-reused", "token_past_its_stated_lifetime_is_not_presented_later", "ask:…",
 				fmt.Sprintf("expires_in=%d, second request %d ms after the answer", w.ExpiresIn, elapsedMs))
 		}
 		// silent cache hit: a token with more than 2 s to live (1 s margin + tolerance) is reused without a token request
-		live := life > 0 && (overflow || life*1000-int64(elapsedMs) >= 2000)
+		live := life > 0 && lifeMs-int64(elapsedMs) >= 2000
 		if live && !strings.HasPrefix(second, "reuse:") {
-			fail("c10t-live-token-not-reused"+suffix, "cached_unexpired_token_means_no_token_request", "reuse:"+tok(named),
+			fail("c10t-live-token-not-reused", "cached_unexpired_token_means_no_token_request", "reuse:"+tok(named),
 				fmt.Sprintf("expires_in=%d, second request %d ms after the answer", w.ExpiresIn, elapsedMs))
 		}
 		if strings.HasPrefix(second, "reuse:") && second != "reuse:"+tok(named) {
@@ -520,6 +518,17 @@ func (*c10t) Oracle(c Case, impl []string) []Failure {
 		}
 	}
 	return fs
+}
+
+// c10tSatMul1000 is seconds in milliseconds, saturating at the ends of int64.
+func c10tSatMul1000(sec int64) int64 {
+	switch {
+	case sec > math.MaxInt64/1000:
+		return math.MaxInt64
+	case sec < math.MinInt64/1000:
+		return math.MinInt64
+	}
+	return sec * 1000
 }
 
 func c10tDocNote(w c10tWire) string {
